@@ -1018,7 +1018,7 @@ def _from_bits_leaf(r, A):
                 pr.append("globals do not map name -> type (the table type -> name is not inverted)")
             if table is not None and not any(
                     isinstance(a[0], Cmp) and a[0].op == 'Eq' and {type(a[0].l), type(a[0].r)} == {Len} and not a[1] and not a[2]
-                    and {show(a[0].l), show(a[0].r)} >= {show(Len(gl))} for a in g.ev.asserts):
+                    and {show(a[0].l), show(a[0].r)} >= {show(Len(gl))} for a in assert_atoms(g.ev)):
                 pr.append("no assertion that the inversion is injective (two types registered under one name would "
                           "silently construct the wrong class)")
         if pr:
@@ -1083,6 +1083,23 @@ def to_bits_parts(A):
     if not h.is_tuple or len(h.str_idx) != 1 or len(h.cnt_idx) != 1 or h.counter is None:
         raise AnalysisError(f"{h.qual}: expected a (counter, strings) result")
     return g, h, h.cnt_idx[0], h.str_idx[0]
+
+
+def assert_atoms(ev):
+    """(fact, loops, conds) for every asserted fact of an evaluation: `assert a and b` == two asserts;
+    `if c: raise` is recorded by the evaluator as the fact `not c`"""
+    def split(t):
+        if isinstance(t, U.BoolV) and t.op == 'and':
+            out = []
+            for x in t.vals:
+                out += split(x)
+            return out
+        if isinstance(t, U.Not) and isinstance(t.v, Cmp) and t.v.op in ('NotEq', 'IsNot'):
+            return [Cmp({'NotEq': 'Eq', 'IsNot': 'Is'}[t.v.op], t.v.l, t.v.r)]
+        return [t]
+    for test, loops, conds, node in ev.asserts:
+        for a in split(test):
+            yield a, loops, conds
 
 
 def threaded_problems(fold, h, ci, init, what):
@@ -1174,7 +1191,7 @@ def rule_width(repo):
         (r.bad(m, g.name, cons, '; '.join(pr), g.fdef.lineno) if pr else r.ok(m, g.name, cons))
     cons = "from_bits: assert <final position> == 0"
     found = False
-    for test, loops, conds, node in g.ev.asserts:
+    for test, loops, conds in assert_atoms(g.ev):
         if isinstance(test, Cmp) and test.op == 'Eq' and not loops and not conds and fold is not None:
             a, b = U.unlin(test.l), U.unlin(test.r)
             if (a == fold and b == Lin(0)) or (b == fold and a == Lin(0)):
@@ -1515,7 +1532,7 @@ def rule_eqhash(repo):
                     r.bad(m, where, cons, f"`{src}` is not a single `return <class identity> and <tuple> == <tuple>`", g.fdef.lineno)
                     continue
                 e = rets[0].value
-                conj = e.values if isinstance(e, ast.BoolOp) and isinstance(e.op, ast.And) else [e]
+                conj = [c_ for c_, pol_ in cond_atoms(e)] if all(pol_ for _, pol_ in cond_atoms(e)) else [e]
                 ident = [c for c in conj if isinstance(c, ast.Compare) and len(c.ops) == 1 and
                          isinstance(c.ops[0], (ast.Is, ast.Eq)) and
                          {class_of(c.left), class_of(c.comparators[0])} == set(names)]
@@ -1787,11 +1804,83 @@ WIRING = {
 }
 
 
+def cond_atoms(test, polarity=True):
+    """split a condition that is known to have truth value `polarity` into atomic facts [(expr, polarity)]:
+    `a and b` true -> a, b true; `a or b` false -> a, b false; `not a` flips; `x not in y` == not (x in y);
+    `x is not y` == not (x is y); `x != y` == not (x == y).  A disjunctive fact stays one (compound) atom."""
+    if isinstance(test, ast.UnaryOp) and isinstance(test.op, ast.Not):
+        return cond_atoms(test.operand, not polarity)
+    if isinstance(test, ast.BoolOp) and ((isinstance(test.op, ast.And) and polarity) or
+                                         (isinstance(test.op, ast.Or) and not polarity)):
+        out = []
+        for v in test.values:
+            out += cond_atoms(v, polarity)
+        return out
+    if isinstance(test, ast.Compare) and len(test.ops) == 1 and isinstance(test.ops[0], (ast.NotIn, ast.IsNot, ast.NotEq)):
+        pos = {ast.NotIn: ast.In, ast.IsNot: ast.Is, ast.NotEq: ast.Eq}[type(test.ops[0])]()
+        return [(ast.Compare(left=test.left, ops=[pos], comparators=test.comparators), not polarity)]
+    return [(test, polarity)]
+
+
+def guard_atom_set(stmt, kinds=('if',), stop=None):
+    """the set of atomic facts (normalised text, polarity) that hold where `stmt` executes, from all enclosing
+    branch conditions -- nested ifs, one merged `and`, either operand order and if/else flipping are the same set"""
+    out = set()
+    for g_ in guards_of(stmt, stop=stop):
+        if g_.kind in kinds and isinstance(g_.polarity, bool):
+            for e, pol in cond_atoms(g_.test, g_.polarity):
+                out.add((norm(e), pol))
+    return out
+
+
+def same_value(func, a, b, at):
+    """two expressions denote the same value at `at`: equal text, or one is a local bound to the other"""
+    if norm(a) == norm(b):
+        return True
+    for x, y in ((a, b), (b, a)):
+        if isinstance(x, ast.Name):
+            src = name_source(func, x.id, at)
+            if src is not None and src[1] is None and norm(src[0]) == norm(y):
+                return True
+    return False
+
+
+def _items_loop(loop):
+    """(source expr, key expr, value expr) of a loop over the entries of a mapping:
+    `for k, v in X.items()` / `for k in X` / `for k in X.keys()`; None for another loop"""
+    it, tg = loop.iter, loop.target
+    if isinstance(it, ast.Call) and isinstance(it.func, ast.Attribute) and not it.args and not it.keywords:
+        if it.func.attr == 'items' and isinstance(tg, ast.Tuple) and len(tg.elts) == 2:
+            return it.func.value, tg.elts[0], tg.elts[1]
+        if it.func.attr == 'keys' and isinstance(tg, ast.Name):
+            src = it.func.value
+            return src, tg, ast.Subscript(value=src, slice=ast.Name(id=tg.id, ctx=ast.Load()), ctx=ast.Load())
+        return None
+    if isinstance(it, (ast.Name, ast.Attribute)) and isinstance(tg, ast.Name):
+        return it, tg, ast.Subscript(value=it, slice=ast.Name(id=tg.id, ctx=ast.Load()), ctx=ast.Load())
+    return None
+
+
 def _loop_fill_problems(func, table, what):
-    """the dict `table` must be filled by `table[k] = v` for every (k, v) of a plain `.items()` loop.
-    Returns (problems, loop node, iterated expression)"""
+    """the dict `table` must receive every (name, type) entry of the declared fields in their order: either
+    `table[k] = v` for every entry of a plain loop over the mapping (items / keys form), or a whole-mapping copy
+    (`dict(X)`, `X.copy()`, `{k: v for k, v in X.items()}`).  Returns (problems, loop node or None, source expr)"""
     stores = [n for n in walk_no_nested(func) if isinstance(n, ast.Assign) and len(n.targets) == 1
               and isinstance(n.targets[0], ast.Subscript) and norm(n.targets[0].value) == table]
+    if not stores:
+        for n in walk_no_nested(func):
+            if isinstance(n, ast.Assign) and len(n.targets) == 1 and norm(n.targets[0]) == table:
+                v = n.value
+                if isinstance(v, ast.Call) and norm(v.func) == 'dict' and len(v.args) == 1 and not v.keywords:
+                    return [], None, v.args[0]
+                if isinstance(v, ast.Call) and isinstance(v.func, ast.Attribute) and v.func.attr == 'copy' and not v.args:
+                    return [], None, v.func.value
+                if isinstance(v, ast.DictComp) and len(v.generators) == 1 and not v.generators[0].ifs:
+                    g = v.generators[0]
+                    fake = ast.For(target=g.target, iter=g.iter, body=[], orelse=[])
+                    il = _items_loop(fake)
+                    if il is not None and norm(v.key) == norm(il[1]) and norm(v.value) == norm(il[2]):
+                        return [], None, il[0]
     if len(stores) != 1:
         return [f"`{table}` is filled at {len(stores)} places (expected one `{table}[name] = type` in a loop)"], None, None
     st = stores[0]
@@ -1801,17 +1890,15 @@ def _loop_fill_problems(func, table, what):
     if not isinstance(loop, ast.For):
         return [f"`{norm(st)}` is not inside a loop over the declared fields"], None, None
     pr = []
-    it = loop.iter
-    if not (isinstance(it, ast.Call) and isinstance(it.func, ast.Attribute) and it.func.attr == 'items' and not it.args):
-        pr.append(f"iterates `{norm(it)}`, not `<declared fields>.items()`: {what} order is not the declaration order")
+    il = _items_loop(loop)
+    if il is None:
+        pr.append(f"iterates `{norm(loop.iter)}`, not the declared fields themselves: {what} order is not the declaration order")
         src = None
     else:
-        src = it.func.value
-    tg = loop.target
-    if not (isinstance(tg, ast.Tuple) and len(tg.elts) == 2 and norm(st.targets[0].slice) == norm(tg.elts[0])
-            and norm(st.value) == norm(tg.elts[1])):
-        pr.append(f"`{norm(st)}` does not store the loop's (name, type) pair")
-    if any(g.kind == 'if' for g in guards_of(st, stop=loop)):
+        src, k, v = il
+        if not (same_value(func, st.targets[0].slice, k, st) and same_value(func, st.value, v, st)):
+            pr.append(f"`{norm(st)}` does not store the loop's (name, type) pair")
+    if guard_atom_set(st, stop=loop):
         pr.append(f"`{norm(st)}` is conditional: some declared fields are dropped from the field table")
     if any(isinstance(n, (ast.Continue, ast.Break)) for b in loop.body for n in walk_no_nested(b)) or loop.orelse:
         pr.append("the loop contains break/continue: some declared fields are dropped from the field table")
@@ -1874,22 +1961,30 @@ def rule_wiring(repo):
         if wr != wrappers:
             pr.append(f"cls.{attr} is wrapped with {wr or 'nothing'}, must be {wrappers or 'nothing'}"
                       + (" (from_bits is called on the class: T.from_bits(bits))" if attr == 'from_bits' else ''))
-        ifs = [g_ for g_ in guards_of(st) if g_.kind == 'if']
-        if mandatory and ifs:
-            pr.append(f"cls.{attr} is only assigned under `{norm(ifs[0].test)}`")
+        atoms = guard_atom_set(st)
+        if mandatory and atoms:
+            a0 = sorted(atoms)[0]
+            pr.append(f"cls.{attr} is only assigned when `{a0[0]}` is {a0[1]}")
         if not mandatory:
+            # expected guard set: {add_<x> is true, '<attr>' not in cls.__dict__} (any subset), as a set of atoms
             params = {x.arg for x in pc.args.args}
-            for g_ in ifs:
-                t = g_.test
-                if isinstance(t, ast.Name) and t.id in params and g_.polarity:
+            flag = 'add_' + attr.strip('_')
+            for txt, pol in sorted(atoms):
+                e = ast.parse(txt, mode='eval').body
+                if isinstance(e, ast.Name) and e.id in params:
+                    if not pol:
+                        pr.append(f"cls.{attr} is generated when the option `{e.id}` is off")
+                    elif e.id != flag:
+                        pr.append(f"cls.{attr} is generated depending on the option `{e.id}` (expected `{flag}`)")
                     continue
-                if isinstance(t, ast.Compare) and len(t.ops) == 1 and isinstance(t.left, ast.Constant) \
-                        and norm(t.comparators[0]) == f"{cls}.__dict__" \
-                        and ((isinstance(t.ops[0], ast.In) and not g_.polarity) or (isinstance(t.ops[0], ast.NotIn) and g_.polarity)):
-                    if t.left.value != attr:
-                        pr.append(f"cls.{attr} is generated depending on whether the user defined {t.left.value!r}")
+                if isinstance(e, ast.Compare) and len(e.ops) == 1 and isinstance(e.ops[0], ast.In) \
+                        and isinstance(e.left, ast.Constant) and norm(e.comparators[0]) == f"{cls}.__dict__":
+                    if pol:
+                        pr.append(f"cls.{attr} is generated only when the user already defined {e.left.value!r}")
+                    elif e.left.value != attr:
+                        pr.append(f"cls.{attr} is generated depending on whether the user defined {e.left.value!r}")
                     continue
-                pr.append(f"cls.{attr} is assigned under the unexpected condition `{norm(t)}`")
+                pr.append(f"cls.{attr} is assigned under the unexpected condition `{txt}` is {pol}")
         (r.bad(m, '_process_class', cons, '; '.join(pr), st.lineno) if pr else r.ok(m, '_process_class', cons))
     # ---- one field table, stamped on the class, filled in declaration order
     cons = "one field table for all generators, stamped as __bitstruct_fields__"
@@ -1915,7 +2010,7 @@ def rule_wiring(repo):
         if src is not None:
             ok = False
             if isinstance(src, ast.Name):
-                ns = name_source(pc, src.id, loop)
+                ns = name_source(pc, src.id, loop if loop is not None else pc.body[-1])
                 if ns is not None and ns[1] is None:
                     ok = '__annotations__' in norm(ns[0]) and cls in norm(ns[0])
             else:
@@ -1925,8 +2020,12 @@ def rule_wiring(repo):
     (r.bad(m, '_process_class', cons, '; '.join(pr), pc.lineno) if pr else r.ok(m, '_process_class', cons))
     # ---- reserved names cannot be user-defined (the generated packing methods are never shadowed by a field)
     cons = "to_bits / from_bits / nbits are reserved names"
-    res = [n for n in walk_no_nested(pc) if isinstance(n, ast.Assert) and isinstance(n.test, ast.Compare)
-           and isinstance(n.test.ops[0], ast.NotIn) and any(isinstance(x, ast.For) for x in _ancestors(n, pc))]
+    res = [n for n in walk_no_nested(pc) if isinstance(n, (ast.Assert, ast.If))
+           and any(isinstance(e, ast.Compare) and isinstance(e.ops[0], ast.In) and
+                   pol == (not isinstance(n, ast.Assert))          # assert x not in R   /   if x in R: raise
+                   for e, pol in cond_atoms(n.test))
+           and (isinstance(n, ast.Assert) or any(isinstance(x, ast.Raise) for b in n.body for x in ast.walk(b)))
+           and any(isinstance(x, ast.For) for x in _ancestors(n, pc))]
     lists = [n.value for n in walk_no_nested(pc) if isinstance(n, ast.Assign) and isinstance(n.value, (ast.List, ast.Tuple))
              and all(isinstance(e, ast.Constant) for e in n.value.elts)]
     names = {e.value for l in lists for e in l.elts}
@@ -1956,7 +2055,12 @@ def rule_wiring(repo):
     else:
         c0 = bs.args.args[0].arg if bs.args.args else None
         rets = [n for n in walk_no_nested(bs) if isinstance(n, ast.Return)]
-        vals = {norm(x.value) for x in rets}
+
+        def alts(e):
+            return alts(e.body) | alts(e.orelse) if isinstance(e, ast.IfExp) else {norm(e)}
+        vals = set()
+        for x in rets:
+            vals |= alts(x.value)
         if not ({okw.name, f"{okw.name}({c0})"} >= vals and f"{okw.name}({c0})" in vals):
             pr.append(f"bitstruct returns {sorted(vals)}, expected the wrapper applied to the class")
     (r.bad(m, 'bitstruct', cons, '; '.join(pr), bs.lineno) if pr else r.ok(m, 'bitstruct', cons))
@@ -2118,24 +2222,42 @@ def _rule_admit(repo, thorough):
     pc = m.get_func('_process_class')
     cons = "every annotation passes _check_field_annotation before it enters the field table"
     calls = [n for n in walk_no_nested(pc) if isinstance(n, ast.Call) and norm(n.func) == '_check_field_annotation']
-    stores = [n for n in walk_no_nested(pc) if isinstance(n, ast.Assign) and len(n.targets) == 1
-              and isinstance(n.targets[0], ast.Subscript) and norm(n.targets[0].value) == 'fields']
+    tables = {norm(n.args[0]) for n in walk_no_nested(pc) if isinstance(n, ast.Call) and isinstance(n.func, ast.Name)
+              and n.func.id in GEN_SPEC and n.args}
     pr = []
-    if len(calls) != 1 or len(stores) != 1:
-        pr.append(f"{len(calls)} guard calls / {len(stores)} field-table stores in _process_class")
+    if len(calls) != 1 or len(tables) != 1:
+        pr.append(f"{len(calls)} guard calls / field tables {sorted(tables)} in _process_class")
     else:
-        call, st = calls[0], stores[0]
+        call = calls[0]
         cst = stmt_of(call)
-        if parent(cst) is not parent(st) or not isinstance(parent(st), ast.For):
-            pr.append("the guard call and the field-table store are not in the same loop body")
+        p2, floop, src = _loop_fill_problems(pc, next(iter(tables)), 'field')      # judged by R-C06-wiring
+        gloop = parent(cst)
+        while gloop is not None and not isinstance(gloop, (ast.For, ast.FunctionDef)):
+            gloop = parent(gloop)
+        il = _items_loop(gloop) if isinstance(gloop, ast.For) else None
+        if src is None:
+            pr.append("cannot relate the guard to the construction of the field table (see R-C06-wiring)")
+        elif il is None or norm(il[0]) != norm(src):
+            pr.append("the guard is not called for every entry of the mapping the field table is built from")
         else:
-            body = parent(st).body
-            if [i for i, x in enumerate(body) if x is cst][0] > [i for i, x in enumerate(body) if x is st][0]:
-                pr.append("the guard runs after the field was stored")
-            if len(call.args) != 3 or norm(call.args[2]) != norm(st.value):
-                pr.append(f"the guard checks `{norm(call.args[-1])}`, the table stores `{norm(st.value)}`")
-            if any(g_.kind == 'if' for g_ in guards_of(cst, stop=parent(st))):
-                pr.append("the guard call is conditional")
+            if len(call.args) != 3 or not same_value(pc, call.args[2], il[2], cst):
+                pr.append(f"the guard checks `{norm(call.args[-1])}`, not the type of the current field")
+            if guard_atom_set(cst, stop=gloop) or \
+                    any(isinstance(n, (ast.Continue, ast.Break)) for x in gloop.body for n in walk_no_nested(x)):
+                pr.append("the guard call is conditional / the loop can skip fields")
+            # it must run before the field enters the table
+            fill = None
+            if floop is gloop and floop is not None:
+                fill = [n for n in walk_no_nested(floop) if isinstance(n, ast.Assign) and len(n.targets) == 1
+                        and isinstance(n.targets[0], ast.Subscript) and norm(n.targets[0].value) == next(iter(tables))]
+                fill = fill[0] if fill else None
+                before = fill is not None and any(x is cst for x in preceding_stmts(fill))
+            else:
+                later = [n for n in walk_no_nested(pc) if isinstance(n, ast.Call) and isinstance(n.func, ast.Name)
+                         and n.func.id in GEN_SPEC]
+                before = bool(later) and all(any(x is gloop for x in preceding_stmts(n)) for n in later)
+            if not before:
+                pr.append("the guard does not run before the field is stored / before the methods are generated")
     (r.bad(m, '_process_class', cons, '; '.join(pr), pc.lineno) if pr else r.ok(m, '_process_class', cons))
     r.require_floor(4 if thorough else 7)
     return r
@@ -2206,7 +2328,16 @@ def rule_concat(repo):
             pr.append(f"the {what} starts at {show(fold.init)}")
         return pr, LoopVar(fold.loop, 'key')
     cons = "width = sum of operand widths"
-    pr, x = loop_ok(w, 'width')
+    summed = False
+    if isinstance(w, CallV) and w.fn == 'sum' and len(w.args) == 1 and isinstance(w.args[0], SeqV):
+        # closed form: sum(x.nbits for x in args)
+        ents = list(U.flatten(w.args[0].segs))
+        if len(ents) == 1 and isinstance(ents[0][0], Item) and len(ents[0][1]) == 1 and not ents[0][2]:
+            Ls = ents[0][1][0].loop
+            if isinstance(Ls.space, KeysSp) and Ls.space.d == args and not ev.loop_flags.get(Ls.id) \
+                    and U.unlin(ents[0][0].v) == Attr(LoopVar(Ls, 'key'), 'nbits'):
+                summed = True
+    pr, x = ([], None) if summed else loop_ok(w, 'width')
     if x is not None and not pr:
         want = U.lin(Carried(w.loop, w.name)).add(U.lin(Attr(x, 'nbits')))
         if U.lin(w.step) != want:
@@ -2278,8 +2409,11 @@ def rule_cache(repo):
             lp = fill[0]
             while lp is not None and not isinstance(lp, ast.For):
                 lp = getattr(lp, '_parent', None)
-            ok = lp is not None and norm(lp.iter).endswith('.items()') and not any(isinstance(x, (ast.Continue, ast.Break)) for x in ast.walk(lp)) \
-                and norm(fill[0].targets[0].slice) == norm(lp.target.elts[0]) and norm(lp.target.elts[1]) in norm(fill[0].value)
+            il = _items_loop(lp) if lp is not None else None      # items() / keys() / plain iteration over the annotations
+            ok = il is not None and not any(isinstance(x, (ast.Continue, ast.Break)) for x in ast.walk(lp)) and not lp.orelse \
+                and same_value(f, fill[0].targets[0].slice, il[1], fill[0]) \
+                and any(same_value(f, sub, il[2], fill[0]) for sub in ast.walk(fill[0].value) if isinstance(sub, (ast.Name, ast.Subscript))) \
+                and not guard_atom_set(fill[0], stop=lp)
         (r.ok if ok else r.bad)(m, '_process_class', cons, *([] if ok else ["the hashed field table is not filled for every annotated field", hs[0].lineno]))
     # hit path returns the cached class; miss path stores before generating
     hit = [s for s in ast.walk(f) if isinstance(s, ast.If) and '_bitstruct_hash_cache' in norm(s.test) and ' in ' in norm(s.test)]
@@ -2461,11 +2595,17 @@ MUTANTS = [
     _m('eq-single-field-shortcut', "  self_tuple  = _mk_tuple_str( 'self', fields )\n  other_tuple",
        "  if len(fields) == 1: return _create_fn('__eq__', ['self','other'], ['return True'])\n  self_tuple  = _mk_tuple_str( 'self', fields )\n  other_tuple",
        'R-C06-eqhash'),
+    _m('wiring-hash-under-repr-option', "  if add_hash:\n    if not '__hash__'", "  if add_repr:\n    if not '__hash__'", 'R-C06-wiring'),
+    _m('wiring-init-when-user-defined', "    if not '__init__' in cls.__dict__:\n      cls.__init__", "    if '__init__' in cls.__dict__:\n      cls.__init__",
+       'R-C06-wiring'),
+    _m('admit-guard-after-store', "    _check_field_annotation( cls, a_name, a_type )\n    fields[ a_name ] = a_type",
+       "    fields[ a_name ] = a_type\n    _check_field_annotation( cls, a_name, a_type )", 'R-C06-admit'),
     # --- admission guard of list fields (third seeding round)
-    _m('admit-rows-leaf-type-not-compared', """      y_type = _recursive_check_array_types( y )
-      assert y_type is x_type""", """      _recursive_check_array_types( y )""", 'R-C06-admit'),
-    _m('admit-row-length-not-compared', "      assert isinstance( y, list ) and len(y) == x_len\n", "      assert isinstance( y, list )\n",
+    _m('admit-rows-leaf-type-not-compared', "      assert y_type is x_type and y_dims == x_dims", "      assert y_dims == x_dims",
        'R-C06-admit'),
+    _m('admit-row-shape-not-compared', "      assert y_type is x_type and y_dims == x_dims", "      assert y_type is x_type",
+       'R-C06-admit'),
+    _m('admit-outer-length-not-recorded', "    return x_type, [ len(current) ] + x_dims", "    return x_type, x_dims", 'R-C06-admit'),
     _m('admit-only-second-leaf-compared', "  for y in current[1:]:\n    assert y is x", "  for y in current[1:2]:\n    assert y is x",
        'R-C06-admit'),
     _m('admit-leaf-kind-not-checked', "  assert issubclass( x, Bits ) or is_bitstruct_class( x )\n  for y in current[1:]:",
@@ -2481,6 +2621,7 @@ MUTANTS = [
 ]
 
 EQUIV = [
+    _m('cache-fill-keys-loop', "  for a_name, a_type in cls_annotations.items():\n", "  for a_name in cls_annotations:\n    a_type = cls_annotations[ a_name ]\n"),
     _m('to-bits-range-descending', "for i in reversed(range(len(type_))):", "for i in range(len(type_)-1, -1, -1):"),
     _m('imatmul-augmented-extend', """        ret.extend( _gen_list_imatmul_strs( type_[0], f"{prefix}[{i}]" ) )""",
        """        ret += _gen_list_imatmul_strs( type_[0], f"{prefix}[{i}]" )"""),
@@ -2542,9 +2683,24 @@ EQUIV = [
     for i in range(len(type_)):
       ret.extend( _gen_list_imatmul_strs( type_[0], f"{prefix}[{i}]" ) )
     return ret'''),
-    _m('admit-identity-operands-swapped', "      assert y_type is x_type", "      assert x_type is y_type"),
-    _m('admit-length-via-local', "      assert isinstance( y, list ) and len(y) == x_len\n",
-       "      y_len = len(y) if isinstance( y, list ) else -1\n      assert x_len == y_len\n"),
+    _m('admit-identity-operands-swapped', "      assert y_type is x_type and y_dims == x_dims", "      assert x_dims == y_dims and x_type is y_type"),
+    _m('admit-assert-split', "      assert y_type is x_type and y_dims == x_dims",
+       "      assert y_type is x_type\n      assert y_dims == x_dims"),
+    dict(name='process-class-merged-option-tests', rule=None, edits=[
+        dict(file=BS, old="  if add_init:\n    if not '__init__' in cls.__dict__:\n      cls.__init__ = _mk_init_fn( _get_self_name(fields), fields )",
+             new="  if add_init and '__init__' not in cls.__dict__:\n    cls.__init__ = _mk_init_fn( _get_self_name(fields), fields )", count=1),
+        dict(file=BS, old="  if add_hash:\n    if not '__hash__' in cls.__dict__:\n      cls.__hash__ = _mk_hash_fn( fields )",
+             new="  if '__hash__' not in cls.__dict__ and add_hash:\n    cls.__hash__ = _mk_hash_fn( fields )", count=1)]),
+    _m('process-class-hash-guard-flipped', "  if add_hash:\n    if not '__hash__' in cls.__dict__:\n      cls.__hash__ = _mk_hash_fn( fields )",
+       "  if not add_hash or '__hash__' in cls.__dict__:\n    pass\n  else:\n    cls.__hash__ = _mk_hash_fn( fields )"),
+    _m('final-assert-as-if-raise', "  assert end_bit == 0\n", "  if end_bit != 0:\n    raise AssertionError( 'width mismatch' )\n"),
+    _m('reserved-names-not-in-form', "    assert a_name not in reserved_fields, f", "    assert not (a_name in reserved_fields), f"),
+    _m('bitstruct-conditional-expression', "  # Called as @bitstruct(...)\n  if _cls is None:\n    return wrap\n\n  # Called as @bitstruct without parens.\n  return wrap( _cls )",
+       "  return wrap if _cls is None else wrap( _cls )"),
+    _m('guard-argument-hoisted', "    _check_field_annotation( cls, a_name, a_type )\n    fields[ a_name ] = a_type",
+       "    ftype = a_type\n    _check_field_annotation( cls, a_name, ftype )\n    fields[ a_name ] = ftype"),
+    _m('concat-width-closed-form', "    value = nbits = 0\n\n    for x in args:\n      xnb = x.nbits\n      nbits += xnb\n      value = (value << xnb) | x.uint()",
+       "    value = 0\n    nbits = sum( x.nbits for x in args )\n\n    for x in args:\n      value = (value << x.nbits) | x.uint()", file=HELPERS),
     _m('from-bits-list-reverse-in-place', """      return end_bit, [ f"[{','.join(reversed(from_strs))}]" ]""",
        """      from_strs.reverse()
       return end_bit, [ f"[{','.join(from_strs)}]" ]"""),
